@@ -231,6 +231,13 @@ def rule_same_bytes(ctx):
     c1 = set(c for c in _conds(w, fp[0]) if c[0] not in ("cpd.fout", "cpd.bout"))
     c2 = set(c for c in _conds(w, pb[0]) if c[0] not in ("cpd.fout", "cpd.bout"))
     r.check(c1 == c2, "write_byte/same-condition", db.loc(w, fp[0]), "file sink under %s, memory sink under %s" % (sorted(c1), sorted(c2)))
+    # the two sinks are independent of each other: the memory copy (what --check compares) is filled whether or not a file
+    # is being written - main() runs --check on stdin with stdout as the file sink
+    f1 = [c for c in _conds(w, fp[0]) if "cpd.bout" in c[0]]
+    f2 = [c for c in _conds(w, pb[0]) if "cpd.fout" in c[0]]
+    r.check(not f1 and not f2, "write_byte/sinks-independent", db.loc(w, pb[0]),
+            "one sink is conditioned on the other (file sink under %s, memory sink under %s): with a file sink present the buffer that "
+            "--check compares stays empty" % (f1, f2))
     v1 = expr_str(w, fp[0]["a"][0])
     v2 = expr_str(w, pb[0]["a"][0]).replace("(UINT8)", "").replace("(unsigned char)", "")
     r.check(v1 == "ch" and v2 == "ch", "write_byte/same-value", db.loc(w, pb[0]), "file sink gets `%s`, memory sink gets `%s`" % (v1, v2))
